@@ -2,6 +2,7 @@
 package manifest
 
 import (
+	"github.com/nspcc-dev/neo-go/pkg/vm/stackitem"
 	"github.com/nspcc-dev/neo-go/pkg/crypto/keys"
 	"github.com/nspcc-dev/neo-go/pkg/util"
 )
@@ -147,4 +148,27 @@ func VF_C16_manifest_can_call() {
 	}
 	vfKnown("group-permission-ignores-methods", known)
 	vfAssert(got == want, "cancall<=>some-permission-matches")
+}
+
+//vf:tier quick
+//vf:bigint theory
+//vf:unwind 32
+//vf:bound a wildcard or hash permission (method list wildcard or 0..2 ASCII names) converted to its stack-item form (as stored by ContractManagement), serialised, deserialised and converted back: matching is unchanged for any callee and method
+func VF_C16_permission_survives_storage_form() {
+	p, sp := vfMakePerm("p")
+	vfAssume(sp.kind != 2) // group keys need curve point decoding on the way back
+	for _, name := range p.Methods.Value { // method names are UTF-8 strings; ASCII here
+		for i := 0; i < len(name); i++ {
+			vfAssume(name[i] < 0x80)
+		}
+	}
+	data, err := stackitem.Serialize(p.ToStackItem())
+	vfAssert(err == nil, "serialize-ok")
+	it, err := stackitem.Deserialize(data)
+	vfAssert(err == nil, "deserialize-ok")
+	var back Permission
+	vfAssert(back.FromStackItem(it) == nil, "from-stack-item-ok")
+	h, m, gs := vfCallee()
+	method := vhName("method")
+	vfAssert(back.IsAllowed(h, m, method) == sp.allows(h, gs, method), "reloaded-permission-allows<=>original-rule")
 }
